@@ -220,9 +220,25 @@ pub fn run_lanemix<V: Vect>(ctx: &Ctx, g: &Graph<V>, total: &mut Collector) {
 /// the effect of a wrong branch or constant (>= 1e-3).
 pub fn tol_simd<V: Vect>() -> f64 {
     if <V::S as Fl>::NAME == "f32" {
+        // observed (Lab/Lch sources aside, see `simd_class`): 9.8e-6 (Luv -> Lchuv at chroma 200)
         1.0e-4
     } else {
-        1.0e-6
+        // observed: 1.3e-14 from the kernels; 2.4e-9 where scalar and SIMD hue differ by 360° and
+        // the f64 reference map itself steps over the IEC sRGB knee (the published constants leave
+        // a 2.4e-9 discontinuity at 0.04045)
+        1.0e-7
+    }
+}
+
+/// Input class of the one known defect of this sub-check: every f32 vector conversion that
+/// starts with Lab -> Xyz (sources Lab and Lch) multiplies by `T::from_f64(116.0).recip()` etc.
+/// (xyz.rs:323-325) and `Recip for f32x4/f32x8` (num/wide.rs) is the hardware's 12-bit
+/// reciprocal *estimate*.
+pub fn simd_class<V: Vect>(ka: &Kind) -> &'static str {
+    if <V::S as Fl>::NAME == "f32" && matches!(ka, Kind::Lab(_) | Kind::Lch(_)) {
+        "@via-lab-to-xyz"
+    } else {
+        ""
     }
 }
 
@@ -271,10 +287,13 @@ pub fn check_vs_scalar_case<V: Vect>(gv: &Graph<V>, gs: &Graph<V::S>, a: usize, 
             if verbose {
                 println!("  {} {:?} -> {}: simd {:?} scalar {:?} dxyz {:e} (tol {:e})", gv.nodes[a].name, to64(v), gv.nodes[b].name, to64(rv[0]), to64(rs), e, t);
             }
+            let cls = simd_class::<V>(&ka);
             if e <= t {
-                c.ratio(&format!("simd-vs-scalar/{}", V::NAME), e / t, || mk(json!({"simd": to64(rv[0]), "dxyz": e}), json!({"scalar": to64(rs)})));
+                if cls.is_empty() {
+                    c.ratio(&format!("simd-vs-scalar/{}", V::NAME), e / t, || mk(json!({"simd": to64(rv[0]), "dxyz": e}), json!({"scalar": to64(rs)})));
+                }
             } else {
-                c.violation(&sig(kind_of_err(e)), e, || mk(json!({"simd_lane0": to64(rv[0]), "bits": hex3(rv[0]), "dxyz": pv::report::fnum(e)}), json!({"scalar": to64(rs), "bits": hex3(rs), "tol": t})));
+                c.violation(&sig(&format!("{}{}", kind_of_err(e), cls)), e, || mk(json!({"simd_lane0": to64(rv[0]), "bits": hex3(rv[0]), "dxyz": pv::report::fnum(e)}), json!({"scalar": to64(rs), "bits": hex3(rs), "tol": t})));
             }
             c.outcome(hash3(rv[0]));
             Some(e)
@@ -290,7 +309,7 @@ pub fn run_vs_scalar<V: Vect>(ctx: &Ctx, gv: &Graph<V>, gs: &Graph<V::S>, total:
     let grid = ctx.tier.pick(9, 17);
     let n = gv.n();
     let has_edge: Vec<bool> = (0..n).map(|a| (0..n).any(|b| b != a && gv.unc[a][b].is_some())).collect();
-    let vals: Vec<Vec<[V::S; 3]>> = (0..n).map(|a| if has_edge[a] { lat::values_for::<V::S>(gv.nodes[a].kind, grid) } else { vec![] }).collect();
+    let vals: Vec<Vec<[V::S; 3]>> = (0..n).map(|a| if has_edge[a] { lat::values_with_thresholds::<V::S>(gv.nodes[a].kind, grid) } else { vec![] }).collect();
     let mut items = vec![];
     for a in 0..n {
         let per = 128;
@@ -324,7 +343,7 @@ pub fn run_vs_scalar<V: Vect>(ctx: &Ctx, gv: &Graph<V>, gs: &Graph<V::S>, total:
     total.exhaustive(
         &sub,
         true,
-        &format!("{} discovered non-identity edges of the {} graph x every dense lattice value ∪ {}^3 sRGB-grid image of the source node that source and target can represent ({} values over all source nodes); every lane of f(splat(x)) vs the scalar {} conversion", (0..n).map(|a| (0..n).filter(|&b| b != a && gv.unc[a][b].is_some()).count()).sum::<usize>(), V::NAME, grid, vals.iter().map(|v| v.len()).sum::<usize>(), <V::S as Fl>::NAME),
+        &format!("{} discovered non-identity edges of the {} graph x every dense lattice value ∪ branch-covering pair-lattice point ∪ {}^3 sRGB-grid image of the source node that source and target can represent ({} values over all source nodes); every lane of f(splat(x)) vs the scalar {} conversion", (0..n).map(|a| (0..n).filter(|&b| b != a && gv.unc[a][b].is_some()).count()).sum::<usize>(), V::NAME, grid, vals.iter().map(|v| v.len()).sum::<usize>(), <V::S as Fl>::NAME),
     );
 }
 
@@ -373,10 +392,14 @@ pub fn check_f32_f64_case(g32: &Graph<f32>, g64: &Graph<f64>, a: usize, b: usize
             if verbose {
                 println!("  {} {:?} -> {}: f32 {:?} f64 {:?} dxyz {:e} (tol {:e})", g32.nodes[a].name, v64, g32.nodes[b].name, r32w, r64, e, t);
             }
+            let icls = input_class(&ka, &kb, xyz_ref);
             if e <= t {
-                c.ratio("f32-vs-f64", e / t, || mk(json!({"f32": r32w, "dxyz": e}), json!({"f64": r64})));
+                // inputs of the known-defect classes do not count towards the recorded slack
+                if icls.is_empty() {
+                    c.ratio("f32-vs-f64", e / t, || mk(json!({"f32": r32w, "dxyz": e}), json!({"f64": r64})));
+                }
             } else {
-                let cls = format!("{}{}", kind_of_err(e), input_class(&ka, &kb, xyz_ref));
+                let cls = format!("{}{}", kind_of_err(e), icls);
                 c.violation(&sig(&cls), e, || mk(json!({"f32": r32w, "bits": hex3(r32), "dxyz": pv::report::fnum(e)}), json!({"f64": r64, "tol": t})));
             }
             c.outcome(hash3(r32));
@@ -394,7 +417,7 @@ pub fn run_f32_f64(ctx: &Ctx, g32: &Graph<f32>, g64: &Graph<f64>, total: &mut Co
     }
     let grid = ctx.tier.pick(9, 17);
     let n = g32.n();
-    let vals: Vec<Vec<[f32; 3]>> = (0..n).map(|a| lat::values_for::<f32>(g32.nodes[a].kind, grid)).collect();
+    let vals: Vec<Vec<[f32; 3]>> = (0..n).map(|a| lat::values_with_thresholds::<f32>(g32.nodes[a].kind, grid)).collect();
     let mut items = vec![];
     for a in 0..n {
         let per = 256;
@@ -425,7 +448,7 @@ pub fn run_f32_f64(ctx: &Ctx, g32: &Graph<f32>, g64: &Graph<f64>, total: &mut Co
         c.add(sub, states, cnt[1], cnt[2], states);
     });
     total.merge(cc);
-    total.exhaustive(sub, true, &format!("{} nodes, {} discovered scalar edges (f32 and f64 graphs have the same edge set, asserted) x every f32-representable dense lattice value ∪ {}^3 sRGB-grid image of the source node that source and target can represent ({} values)", n, g32.edge_count(), grid, vals.iter().map(|v| v.len()).sum::<usize>()));
+    total.exhaustive(sub, true, &format!("{} nodes, {} discovered scalar edges (f32 and f64 graphs have the same edge set, asserted) x every f32-representable dense lattice value ∪ branch-covering pair-lattice point ∪ {}^3 sRGB-grid image of the source node that source and target can represent ({} values)", n, g32.edge_count(), grid, vals.iter().map(|v| v.len()).sum::<usize>()));
 }
 
 /// hidden calibration helper (`--only calib`): per-edge maximum of the SIMD-vs-scalar deviation
@@ -433,7 +456,7 @@ pub fn calib<V: Vect>(gv: &Graph<V>, gs: &Graph<V::S>) {
     let n = gv.n();
     let rows: Vec<Vec<(f64, usize, usize, V3)>> = pv::par::map_chunks(n, |a| {
         let mut out = vec![];
-        let vals = lat::values_for::<V::S>(gv.nodes[a].kind, 9);
+        let vals = lat::values_with_thresholds::<V::S>(gv.nodes[a].kind, 9);
         for b in 0..n {
             if a == b {
                 continue;
